@@ -4,6 +4,7 @@ package main
 
 import (
 	"bytes"
+	"encoding/binary"
 	"encoding/json"
 	"fmt"
 	"math/big"
@@ -35,11 +36,28 @@ func init() {
 		}
 		c09ops(r, raw)
 	}
-	replays["C10"] = opsReplay("squash", runAuthOps, func(r *Result, ops, impl []string) {
+	c10ops := opsReplay("squash", runAuthOps, func(r *Result, ops, impl []string) {
 		for i := range ops {
 			squashOracle(r, ops[i], impl[i])
 		}
 	})
+	replays["C10"] = func(r *Result, raw json.RawMessage) {
+		var rp struct {
+			Ops []string `json:"ops"`
+		}
+		json.Unmarshal(raw, &rp)
+		if len(rp.Ops) > 0 && strings.HasPrefix(rp.Ops[0], "applied ") {
+			var mode string
+			var c Cred
+			fmt.Sscanf(rp.Ops[0], "applied %s %d %d %d", &mode, &c.Flavor, &c.UID, &c.GID)
+			w := newWorld(SrvCfg{Squash: mode, AttrTTL: time.Nanosecond})
+			w.noTrace = true
+			appliedOne(r, w, mode, c, "f")
+			w.Close()
+			return
+		}
+		c10ops(r, raw)
+	}
 }
 
 // Op lines carry both the text the real code sees and the parsed form the model sees:
@@ -639,6 +657,7 @@ func checkC10(r *Result, rng *rand.Rand, thorough bool) {
 			}
 		}
 	}
+	appliedIdentity(r, rng)
 	var cases []Case
 	var il [][]string
 	for i := 0; i < len(ops); i += 2000 {
@@ -647,4 +666,43 @@ func checkC10(r *Result, rng *rand.Rand, thorough bool) {
 		il = append(il, impl[i:j])
 	}
 	compareWithModel(r, "squash", cases, il, runAuthOps)
+}
+
+// appliedIdentity: the identity a request actually runs with, observed through the whole HandleCall path (not
+// ValidateAuthentication alone): a CREATE without uid/gid in its sattr3 makes the backend record the caller's
+// effective identity as the owner of the new file, so the recorded owner must be squash(mode, credential) for
+// every flavor and mode spelling the constructor accepts.
+func appliedIdentity(r *Result, rng *rand.Rand) {
+	creds := []Cred{{Flavor: 0}, {Flavor: 0, Raw: []byte{}}, {Flavor: 1, UID: 0, GID: 0}, {Flavor: 1, UID: 1000, GID: 1000}, {Flavor: 1, UID: 1000, GID: 0},
+		{Flavor: 1, UID: 0, GID: 5}, {Flavor: 1, UID: 1000, GID: 1000, Aux: []uint32{0, 2000}}, {Flavor: 1, UID: 65534, GID: 7}}
+	for _, mode := range []string{"root", "all", "none", "Root", "ALL", "None", "rOOt"} {
+		w := newWorld(SrvCfg{Squash: mode, AttrTTL: time.Nanosecond})
+		w.noTrace = true
+		for i, c := range creds {
+			if i >= 2 && rng.Intn(3) == 0 {
+				continue
+			}
+			appliedOne(r, w, mode, c, fmt.Sprintf("f%d", i))
+		}
+		w.Close()
+	}
+}
+
+func appliedOne(r *Result, w *World, mode string, c Cred, name string) {
+	rep := w.srv.Call(progNFS, 3, 8, c, argCreate(w.root, name, 0, Sattr{}, nil))
+	r.noteCase(fmt.Sprint("applied", mode, c), true)
+	r.count("applied-identity")
+	if rep.Err != nil || rep.Status != 0 || rep.AcceptStatus != 0 || len(rep.Data) < 4 || binary.BigEndian.Uint32(rep.Data) != 0 {
+		r.count("applied-identity:create-refused")
+		return
+	}
+	wu, wg := effectiveID(mode, Cred{Flavor: c.Flavor, UID: c.UID, GID: c.GID})
+	gu, gg, ok := ownerOf(w, "/"+name)
+	if !ok {
+		return
+	}
+	if uint32(gu) != wu || uint32(gg) != wg {
+		r.violate(Violation{Class: "C10/applied-identity", What: fmt.Sprintf("squash %q, flavor %d credential %d:%d: the request ran as %d:%d (owner recorded for the file it created), the squash rule gives %d:%d",
+			mode, c.Flavor, c.UID, c.GID, gu, gg, wu, wg), Ops: []string{fmt.Sprintf("applied %s %d %d %d", mode, c.Flavor, c.UID, c.GID)}})
+	}
 }
